@@ -210,6 +210,7 @@ type Exec struct {
 	GlobalInit func(e *Exec, st *State, g *ssa.Global) (Val, bool)
 	preState   *State
 	forcedInt  bool
+	deadCands  map[loopKey]map[string]bool
 	mergedJoin *ssa.BasicBlock
 	mergedIdx  int
 	Merges     int
